@@ -51,6 +51,9 @@ def cases(tier, seed):
         yield "finder", dict(k=k)
     yield "cli", dict()
     yield "wholeimage", dict()
+    for k in range(len(WIDEF)):
+        for depth in ([6, 9] if tier == "quick" else [5, 6, 7, 8, 9, 10]):
+            yield "widefield", dict(k=k, depth=depth)
     # histories: one mask FILE rewritten between runs of one process; every ordered pair of HIST_REGIONS
     for first in range(len(HIST_REGIONS)):
         yield "history", dict(first=first)
@@ -259,6 +262,67 @@ def ev_wholeimage(case, ctx):
             ctx.violation("a region covering the whole image changes the catalogue: %d vs %d components (wcs %d)" % (len(db), len(da), w), "wholeimage|wcs=%d" % w)
 
 
+WIDEF = [("ZEA", "centre"), ("SIN", "centre"), ("ZEA", "off"), ("SIN", "off"), ("TAN", "off"), ("ARC", "centre"),
+         ("CAR", "dec+40"), ("CAR", "dec-55"), ("SFL", "dec+40"), ("MER", "dec+40"), ("SIN", "near"), ("ZEA", "near")]
+
+
+def ev_widefield(case, ctx):
+    """wide fields (15 x 30 degrees, image edges are strongly curved on the sky): a region that covers the whole image changes
+    nothing, whatever its depth; islands sit next to the middle of every edge and in the corners"""
+    d = os.environ["VERIF_SCRATCH"]
+    proj, where = WIDEF[case["k"]]
+    depth = case["depth"]
+    sc = 0.1
+    IMGW = (150, 300)
+    rows, cols = IMGW
+    spots = []
+    # separate islands 3 and 7 pixels from every edge: at its middle, its quarter points and in between
+    for off, fr in ((3.0, 0.5), (3.0, 0.25), (3.0, 0.75), (7.0, 0.4), (7.0, 0.62)):
+        spots += [(off, cols * fr), (rows - 1 - off, cols * fr + 0.4), (rows * fr, off), (rows * fr - 0.3, cols - 1 - off)]
+    spots += [(6.0, 6.0), (rows - 7.0, cols - 7.0), (rows / 2.0, cols / 2.0)]
+    if where.startswith("dec"):
+        # cylindrical and pseudo-cylindrical projections (no independent model of these exists here, and none is needed: the
+        # whole-image clause is differential); the image sits 40 / 55 degrees from the reference latitude, blobs are drawn in
+        # pixel space
+        hdr = wz.make_header("SIN", (200.0 + core.seed_shift(ctx.seed, 32, 10.0), 0.0), sc, IMGW, beam=(4 * sc, 3 * sc, 15.0),
+                             crpix=(cols / 2.0 + 0.5, rows / 2.0 + 0.5 - float(where[3:]) / sc))
+        hdr["CTYPE1"], hdr["CTYPE2"] = "RA---" + proj, "DEC--" + proj
+        ii, jj = np.mgrid[0:rows, 0:cols]
+        img = np.zeros(IMGW)
+        for j, (r, c) in enumerate(spots):
+            img += (0.6 + 0.01 * j) * np.exp(-0.5 * (((ii - r) / 1.6) ** 2 + ((jj - c) / 1.4) ** 2))
+    else:
+        crpix = dict(centre=None, off=(cols + 200.5, -125.25), near=(cols + 40.5, rows / 2.0))[where]
+        hdr = wz.make_header(proj, (200.0 + core.seed_shift(ctx.seed, 32, 10.0), -30.0), sc, IMGW, beam=(4 * sc, 3 * sc, 15.0), **(dict(crpix=crpix) if crpix else {}))
+        srcs = [skygauss.source_at_pixel(hdr, r, c, 0.6 + 0.01 * j, 4.5, 3.2, 20.0 * j - 80.0) for j, (r, c) in enumerate(spots)]
+        img = skygauss.render(hdr, IMGW, srcs)
+    f = os.path.join(d, "c11wf.fits")
+    scenes.write_image(f, hdr, img)
+    from astropy.wcs import WCS as _WCS
+    ra0, dec0 = _WCS(wz.to_fits_header(hdr), naxis=2).all_pix2world([[cols / 2.0, rows / 2.0]], 1)[0]
+    reg = Region(maxdepth=depth)
+    reg.add_circles(np.radians(float(ra0)), np.radians(float(dec0)), np.radians(35.0))
+    sig = "widefield:%s,crpix=%s,depth=%d" % (proj, where, depth)
+    ctx.count("widefield")
+    ctx.nontrivial(sig)
+    try:
+        un = scenes.finder().find_sources_in_image(f, rms=0.01, cores=1, docov=False, innerclip=5, outerclip=4)
+        re_ = scenes.finder().find_sources_in_image(f, rms=0.01, cores=1, docov=False, innerclip=5, outerclip=4, mask=copy.deepcopy(reg))
+    except Exception as ex:
+        ctx.violation("finder raised %r (%s)" % (ex, sig), "raise|" + sig)
+        return
+    finally:
+        if os.path.exists(f):
+            os.remove(f)
+    da = [{k: v for k, v in scenes.src_dict(s).items() if k != "uuid"} for s in un]
+    db = [{k: v for k, v in scenes.src_dict(s).items() if k != "uuid"} for s in re_]
+    ctx.outcome("widefield:n=%d" % len(un))
+    ctx.note_max("widefield_components_minus_blobs", abs(len(un) - len(spots)))
+    if core.jdump(da) != core.jdump(db):
+        ctx.violation("a region covering the whole (wide) image changes the catalogue: %d components with the region, %d without (%s)" % (len(db), len(da), sig),
+                      "widefield|" + sig)
+
+
 HIST_REGIONS = ["circle8", "polygon10", "whole", "elsewhere", "small_circle11"]
 
 
@@ -356,4 +420,4 @@ def ev_cli(case, ctx):
 
 
 def evaluate(clause, case, ctx):
-    dict(islands=ev_islands, finder=ev_finder, cli=ev_cli, wholeimage=ev_wholeimage, history=ev_history)[clause](case, ctx)
+    dict(islands=ev_islands, finder=ev_finder, cli=ev_cli, wholeimage=ev_wholeimage, history=ev_history, widefield=ev_widefield)[clause](case, ctx)
